@@ -4,7 +4,10 @@ import random
 
 from .. import casing, common as c, corpus, l2, translate
 
-THEOREMS = []  # filled in below once the theorem module exists
+THEOREMS = [("Sylvia.Thm.C03", "C03." + t) for t in
+            ["at_most_one", "wrapper_accepts_encoded", "wrapper_ok_sound", "unknown_lists_all", "not_single_key_rejected"]] + \
+           [("Sylvia.Thm.C05Gen", "C05.parts_faithful_closed"), ("Sylvia.Thm.Obl.Published", "Obl.published_rule_is_wire_rule"),
+            ("Sylvia.Lemmas.ValuePass", "Sylvia.Serde.normalize_canon"), ("Sylvia.Lemmas.ValuePass", "Sylvia.Serde.decodeFields_sorted")]
 
 
 def build_ops(ctx, progs):
